@@ -57,7 +57,7 @@ func GetMode(args []string) int {
 	if len(args) == 1 {
 		return 1
 	} else if len(args) == 2 {
-		testMode := os.Args[1]
+		testMode := args[1]
 		if testMode == "-t" {
 			return 2
 		} else {
